@@ -174,7 +174,7 @@ def run(tier, seed):
             if key: khits[key] = khits.get(key, 0) + 1
             if f: bad.append(dict(failed=f, case=info))
             # diabatic representation: H = V, couplings zero, force = -diag dV
-            if name not in ("shin-metiu",) and rng.random() < 0.3:
+            if name not in ("shin-metiu",) and (it == 0 or rng.random() < 0.3):
                 md = type(m)(representation="diabatic") if name not in ("modelw", "modelz") else type(m)(representation="diabatic", nstates=m.nstates())
                 try:
                     ed = md.update(x)
